@@ -181,6 +181,10 @@ func (i *IndexSnapshotTermFieldReader) Advance(ID index.IndexInternalID, preAllo
 			}
 		}
 	}
+	if len(i.snapshot.segment) == 0 {
+		// nothing indexed (or everything deleted): no segment to look the id up in
+		return nil, nil
+	}
 	num := ID.Value()
 	segIndex, ldocNum := i.snapshot.segmentIndexAndLocalDocNumFromGlobal(num)
 	if segIndex >= len(i.snapshot.segment) {
